@@ -105,6 +105,8 @@ def render(model, outdir, lib_in="designspace"):
         info = {"familyName": model["names"].get("familyName", fam), "styleName": m["name"] if mi else model["names"].get("styleName", "Regular"),
                 "unitsPerEm": model["upem"]}
         if mi == 0:
+            if "expect_names" in model:  # naming family: exactly the fields the model lists, nothing implied
+                info = {"unitsPerEm": model["upem"]}
             for k, v in model["names"].items():
                 info[k] = v
         info.update(m["info"])
